@@ -128,7 +128,7 @@ Definition splice (C : Circuit) (n : string) (i : nat) : res Circuit :=
   if bool_decide (inst ∈ dom (c_bbs C)) then Raise ValueError else
   let g1 := <[q := mk_node Buf false {[pin inst "q"]}]> (reroute g n q (fanout g n)) in
   if existsb (λ p, bool_decide (pin inst p ∈ dom g1)) ["clk"; "d"; "q"] then Raise ValueError else
-  if is_in (ty g n) [BbIn] || is_in (ty g clk_name) [BbIn; BbOut] then Raise ValueError else
+  if is_in (ty g n) [BbIn; BbOut] || is_in (ty g clk_name) [BbIn; BbOut] then Raise ValueError else
   Ok {| c_name := c_name C;
         c_g := <[pin inst "d" := mk_node BbIn false {[n]}]>
                (<[pin inst "clk" := mk_node BbIn false {[clk_name]}]>
